@@ -2835,6 +2835,7 @@ func (s *ImmuStore) ExportTx(txID uint64, allowPrecommitted bool, skipIntegrityC
 		if err == nil {
 			// currently, either all the values are sent or none
 			if isValueTruncated {
+				s._valBsMux.Unlock()
 				return nil, fmt.Errorf("%w: partially truncated transaction", ErrCorruptedData)
 			}
 
@@ -2858,6 +2859,7 @@ func (s *ImmuStore) ExportTx(txID uint64, allowPrecommitted bool, skipIntegrityC
 
 			// currently, either all the values are sent or none
 			if !isValueTruncated && i > 0 {
+				s._valBsMux.Unlock()
 				return nil, fmt.Errorf("%w: partially truncated transaction", ErrCorruptedData)
 			}
 
